@@ -83,6 +83,9 @@ type c01Scenario struct {
 	history bool
 	// fetchFault: the first request for the first of the concurrently fetched entries fails once (transport error)
 	fetchFault bool
+	// retry: before every window block the explorer chooses whether one upstream request of that block (the directory block
+	// itself, or the request that follows it) fails once, so that the running node applies the block a second time
+	retry bool
 }
 
 func c01Scenarios(thorough bool) []c01Scenario {
@@ -202,7 +205,7 @@ func c01Scenarios(thorough bool) []c01Scenario {
 		era.V204 = era.Base + 9
 		era.V204Burn = era.Base + 10
 		mint, _ := factom.NewFAAddress(node.GlobalMintAddress)
-		out = append(out, c01Scenario{name: "one-time-adjustments/zeroing+mint+mint-burn", era: era,
+		out = append(out, c01Scenario{name: "one-time-adjustments/zeroing+mint+mint-burn", era: era, retry: true,
 			prefix: func(b *drive.Builder) {
 				FundStd(b)
 				// both burn addresses and the mint address hold several assets when their adjustment arrives
@@ -277,7 +280,37 @@ func c01Scenarios(thorough bool) []c01Scenario {
 	return out
 }
 
+// c01Who names the special addresses among the differing pn_addresses rows.
+func c01Who(diff []string) string {
+	mint, _ := factom.NewFAAddress(node.GlobalMintAddress)
+	ob, gb := OldBurn(), GlobalBurn()
+	names := map[string]string{fmt.Sprintf("%x", ob[:]): "old-burn-address", fmt.Sprintf("%x", gb[:]): "burn-address", fmt.Sprintf("%x", mint[:]): "mint-address"}
+	set := map[string]bool{}
+	for _, l := range diff {
+		if !strings.Contains(l, "pn_addresses: ") {
+			continue
+		}
+		who := "other-addresses"
+		for hx, nm := range names {
+			if strings.Contains(l, "address=x'"+hx+"'") {
+				who = nm
+			}
+		}
+		set[who] = true
+	}
+	if len(set) == 0 {
+		return ""
+	}
+	var out []string
+	for k := range set {
+		out = append(out, k)
+	}
+	sort.Strings(out)
+	return ":" + strings.Join(out, "+")
+}
+
 type c01Exec struct {
+	perHeight []canon.Dump
 	points []c01Point
 	picked []int
 	dump   canon.Dump
@@ -380,6 +413,43 @@ func c01Execute(w *World, sc c01Scenario, choices []int) *c01Exec {
 				break
 			}
 		}
+	} else if sc.retry {
+		for h := w.B.Chain.Tip() + 1; h <= run.B.Chain.Tip(); h++ {
+			which := choose("transient-upstream-failure-in-block", 3, 3)
+			fired, sawDBlock := false, false
+			h := h
+			req := func(rq fake.Req) fake.FaultKind {
+				if which == 0 || fired || rq.Kind == "heights" {
+					return fake.NoFault
+				}
+				if rq.Kind == "dblock" && rq.Height == h {
+					sawDBlock = true
+					if which == 1 {
+						fired = true
+						return fake.FaultTransport
+					}
+					return fake.NoFault
+				}
+				if sawDBlock && which == 2 {
+					fired = true
+					return fake.FaultTransport
+				}
+				return fake.NoFault
+			}
+			ex.out = run.D.SyncTo(h, drive.SyncOpts{OnRequest: req, FaultPending: func() bool { return which != 0 && !fired }})
+			if !ex.out.Reached {
+				break
+			}
+			// the ledger after EVERY block counts, not only the last one (a later adjustment may paper over an earlier difference)
+			if pd, err := canon.File(drive.DBFileOf(run.DBPath), canon.Ledger); err != nil {
+				panic("harness: dump: " + err.Error())
+			} else {
+				ex.perHeight = append(ex.perHeight, pd)
+			}
+			if which != 0 && !fired {
+				panic("harness: C01 retry scenario: the fault never fired")
+			}
+		}
 	} else {
 		ex.out = run.D.SyncTo(run.B.Chain.Tip(), drive.SyncOpts{OnRequest: onReq, FaultPending: func() bool { return sc.fetchFault && !faultFired }})
 		if sc.fetchFault && !faultFired {
@@ -388,6 +458,9 @@ func c01Execute(w *World, sc c01Scenario, choices []int) *c01Exec {
 	}
 	ex.dump = run.Dump(canon.Ledger)
 	ex.hash = ex.dump.Hash()
+	for _, d := range ex.perHeight {
+		ex.hash += "." + d.Hash()
+	}
 	return ex
 }
 
@@ -427,6 +500,7 @@ func runC01(c *core.Ctx, r *core.Result) {
 		w := MustWorld(sc.era, sc.prefix)
 		outcomes := map[string][]int{}
 		dumps := map[string]canon.Dump{}
+		perHeight := map[string][]canon.Dump{}
 		count := 0
 		var explore func(prefix []int, dev int, devSmall int, bigUsed bool)
 		explore = func(prefix []int, dev int, devSmall int, bigUsed bool) {
@@ -450,6 +524,7 @@ func runC01(c *core.Ctx, r *core.Result) {
 			if _, seen := outcomes[key]; !seen {
 				outcomes[key] = append([]int{}, prefix...)
 				dumps[key] = ex.dump
+				perHeight[key] = ex.perHeight
 			}
 			for i := len(prefix); i < len(ex.points); i++ {
 				p := ex.points[i]
@@ -481,17 +556,38 @@ func runC01(c *core.Ctx, r *core.Result) {
 		r.Count("executions:"+sc.name, count)
 		r.Outcome(fmt.Sprintf("%s:distinct-ledgers-seen-by-a-worker=%d", strings.Split(sc.name, "/")[0], len(outcomes)))
 		if len(outcomes) > 1 {
+			// every distinct ledger is compared with the one of the default execution (no deviation: the first one run), and
+			// named by what differs, so that a listed finding about one special address does not cover another
 			var keys []string
-			for k := range outcomes {
-				keys = append(keys, k)
+			ref := ""
+			for k, pv := range outcomes {
+				if len(pv) == 0 {
+					ref = k
+				} else {
+					keys = append(keys, k)
+				}
 			}
 			sort.Strings(keys)
-			a, b := keys[0], keys[1]
-			tables := canon.TablesDiffering(dumps[a], dumps[b])
-			r.Violate(core.Violation{Key: fmt.Sprintf("%s/%v-vs-%v", sc.name, outcomes[a], outcomes[b]),
-				Signature: fmt.Sprintf("C01:ledger-depends-on-iteration-or-completion-order:%s:%s", strings.Split(sc.name, "/")[0], strings.Join(tables, "+")),
-				Desc:      fmt.Sprintf("scenario %s: %d distinct ledgers over %d executions; choice vectors %v and %v (index of the order chosen at each dynamic map range / fetch set) give different dumps", sc.name, len(outcomes), count, outcomes[a], outcomes[b]),
-				Detail:    joinDiff(dumps[a], dumps[b])})
+			if ref == "" {
+				ref, keys = keys[0], keys[1:]
+			}
+			for _, k := range keys {
+				da, db := dumps[ref], dumps[k]
+				at := ""
+				for i := range perHeight[ref] {
+					if i < len(perHeight[k]) && !canon.Equal(perHeight[ref][i], perHeight[k][i]) {
+						da, db = perHeight[ref][i], perHeight[k][i]
+						at = fmt.Sprintf(" (first difference after window block %d)", i+1)
+						break
+					}
+				}
+				tables := canon.TablesDiffering(da, db)
+				diff := joinDiff(da, db)
+				r.Violate(core.Violation{Key: fmt.Sprintf("%s/%v-vs-%v", sc.name, outcomes[ref], outcomes[k]),
+					Signature: fmt.Sprintf("C01:ledger-depends-on-iteration-or-completion-order:%s:%s%s", strings.Split(sc.name, "/")[0], strings.Join(tables, "+"), c01Who(diff)),
+					Desc:      fmt.Sprintf("scenario %s: %d distinct ledgers over %d executions; choice vectors %v and %v (index of the order chosen at each dynamic map range / fetch set / fault placement) give different dumps%s", sc.name, len(outcomes), count, outcomes[ref], outcomes[k], at),
+					Detail:    diff})
+			}
 		}
 		if len(r.Samples) < 4 {
 			r.Sample(map[string]interface{}{"scenario": sc.name, "executions": count, "distinct_ledgers": len(outcomes)})
